@@ -65,6 +65,7 @@ pub struct Counts {
     pub subpaths: u64,
     pub layers: u64,
     pub image_elements: u64,
+    pub split_layers: u64,
 }
 
 /// C12's statement, checked on one document.
@@ -104,19 +105,40 @@ pub fn check_svg(svg: &str, qr: &QRCode, spec: &Spec) -> Result<Counts, V> {
     }
     let mut counts = Counts::default();
     for (li, (shape, colour)) in layers.iter().enumerate() {
-        let p = match it.next() {
-            Some(e) if e.name == "path" => e,
-            other => return bad("layer-missing", format!("layer {li}: found {:?} where a <path> was expected ({} layers configured)", other.map(|e| &e.name), layers.len())),
-        };
+        // a layer is one <path>, or several consecutive <path> elements that together carry one sub-path per dark
+        // module (a writer may split long path data): elements are taken until the layer has its ndark sub-paths
         let want = colour.clone().unwrap_or_else(|| spec.module_colour());
-        if !want.matches(p.attr("fill").unwrap_or("")) {
-            return bad("layer-colour", format!("layer {li} ({}): fill {:?}, expected {:?}", crate::render::SHAPE_NAMES[*shape], p.attr("fill"), want.expected()));
+        let mut sps = Vec::new();
+        let mut elements = 0;
+        loop {
+            let p = match it.next() {
+                Some(e) if e.name == "path" => e,
+                other => {
+                    if elements == 0 {
+                        return bad("layer-missing", format!("layer {li}: found {:?} where a <path> was expected ({} layers configured)", other.map(|e| &e.name), layers.len()));
+                    }
+                    // put nothing back: the count check below reports the shortfall
+                    if let Some(e) = other {
+                        return bad("subpath-missing", format!("layer {li}: {} sub-paths in {elements} <path> element(s) for {ndark} dark modules, next element is <{}>", sps.len(), e.name));
+                    }
+                    break;
+                }
+            };
+            if !want.matches(p.attr("fill").unwrap_or("")) {
+                return bad("layer-colour", format!("layer {li} ({}): fill {:?}, expected {:?}", crate::render::SHAPE_NAMES[*shape], p.attr("fill"), want.expected()));
+            }
+            match svgpath::subpaths(p.attr("d").unwrap_or("")) {
+                Ok(s) => sps.extend(s),
+                Err(e) => return bad("path-syntax", format!("layer {li}: {e}")),
+            }
+            elements += 1;
+            if sps.len() >= ndark {
+                break;
+            }
         }
-        let d = p.attr("d").unwrap_or("");
-        let sps = match svgpath::subpaths(d) {
-            Ok(s) => s,
-            Err(e) => return bad("path-syntax", format!("layer {li}: {e}")),
-        };
+        if elements > 1 {
+            counts.split_layers += 1;
+        }
         let mut seen = vec![false; n * n];
         // glyph of this layer relative to its cell, taken from the first sub-path: a built-in shape is one
         // glyph translated to (column+margin, row+margin), so every other sub-path must be the same glyph
